@@ -133,4 +133,81 @@ Proof.
     try (specialize (Hc eq_refl); discriminate); repeat split; auto; try discriminate.
 Qed.
 
+
+(* ---------- one iteration, decomposed ---------- *)
+Lemma skipn_app_le {A} n (l1 l2 : list A) : n <= length l1 -> skipn n (l1 ++ l2) = skipn n l1 ++ l2.
+Proof.
+  intros H. rewrite skipn_app. replace (n - length l1) with 0 by lia. reflexivity.
+Qed.
+
+Lemma release_rule_spec b fbr :
+  exists br' fbr', release_rule cfg b fbr = (br', fbr', b) /\ (br' = false -> b = []) /\ (br' = true -> fbr' = fbr).
+Proof.
+  unfold release_rule. destruct (negb (stream_body cfg) && reduce_mem cfg && isnil b) eqn:Hc.
+  - destruct b; [|rewrite !andb_false_r in Hc; discriminate]. exists false, false. auto.
+  - exists true, fbr. repeat split; auto; discriminate.
+Qed.
+
+Definition iter_tail (s : lst) (S : bytes) (fl mid tailev : list event) (r : iter_end) : Prop :=
+  (r = Exit /\ mid = [] /\ tailev = if unflushed_from (l_dirty s) fl then [Drop] else [])
+  \/ (r = Exit /\ exists e, tailev = [Resp (err_resp e); Flush])
+  \/ exists q cont cc0 st0 br fbr b cs off,
+       tailev = fst (FR (l_num s + 1)%N q cont cc0 st0 br fbr b cs (tl (l_rd s)) off (unflushed_from (l_dirty s) (fl ++ mid))) /\
+       r = snd (FR (l_num s + 1)%N q cont cc0 st0 br fbr b cs (tl (l_rd s)) off (unflushed_from (l_dirty s) (fl ++ mid))) /\
+       (cont = false -> cc0 = true) /\
+       (cont = true -> exists k, framed F S q k /\ b ++ concat cs = skipn k S /\ 0 < k <= length S /\
+                                 off = l_off s + k /\ (br = false -> b = [])).
+
+Lemma iter_decomp s evs r :
+  (l_br s = false -> buf (l_rd s) = []) ->
+  serve_iter F cfg E s = (evs, r) ->
+  let S := remaining (l_rd s) in
+  (r = Exit /\ evs = (if l_dirty s then [Drop] else []))
+  \/ (r = Exit /\ evs = [Resp (err_resp EcTimeout); Flush])
+  \/ exists avail fl mid tailev,
+       evs = St StActive :: ParseAt (l_off s) avail :: fl ++ mid ++ tailev /\ 1 <= avail <= length S /\
+       (fl = [] \/ (fl = [Flush] /\ l_dirty s = true)) /\ (mid = [] \/ mid = [Resp continue_resp; Flush]) /\
+       iter_tail s S fl mid tailev r.
+Proof.
+  intros Hbr. unfold serve_iter. cbv zeta.
+  set (rd := l_rd s). set (S := remaining rd).
+  (* phase 1: the first byte *)
+  assert (Hfirst : forall b0 cs0, b0 <> [] -> b0 ++ concat cs0 = S -> 1 <= length b0 <= length S).
+  { intros b0 cs0 Hne He. rewrite <- He, app_length. destruct b0; [congruence|cbn; lia]. }
+  match goal with |- (match ?first with _ => _ end = _ -> _) => destruct first as [[[[b0 cs0] fbr]|]|r0] eqn:Hf end.
+  2:{ intros H. injection H as <- <-. left. unfold silent_exit. auto. }
+  2:{ (* exits before any byte *)
+      intros H. subst r0.
+      destruct (negb (reduce_mem cfg) || l_br s).
+      - destruct (peek1 (buf rd) (chunks rd)) as [[b cs]|]; [discriminate|].
+        destruct (tl rd).
+        + injection Hf as <- <-. left. unfold silent_exit; auto.
+        + destruct (1 <? l_num s + 1)%N; injection Hf as <- <-; [left; unfold silent_exit; auto|right; left; auto].
+      - destruct (fbr_chunks (chunks rd)) as [cs0|]; [|injection Hf as <- <-; left; unfold silent_exit; auto].
+        destruct (peek1 [] cs0) as [[b cs]|]; [discriminate|]. injection Hf as <- <-; left; unfold silent_exit; auto. }
+  assert (Hb0 : b0 <> [] /\ b0 ++ concat cs0 = S).
+  { destruct (negb (reduce_mem cfg) || l_br s) eqn:Hc.
+    - destruct (peek1 (buf rd) (chunks rd)) as [[b cs]|] eqn:Hp.
+      + injection Hf as <- <- <-. apply peek1_some in Hp as [H1 H2]. split; auto.
+      + destruct (tl rd); [discriminate|]. destruct (1 <? l_num s + 1)%N; discriminate.
+    - apply orb_false_iff in Hc as [_ Hc]. specialize (Hbr Hc).
+      destruct (fbr_chunks (chunks rd)) as [cs1|] eqn:Hfc; [|discriminate].
+      destruct (peek1 [] cs1) as [[b cs]|] eqn:Hp; [|discriminate].
+      injection Hf as <- <- <-. apply peek1_some in Hp as [H1 H2]. split; auto.
+      rewrite <- H2. cbn. apply fbr_chunks_some in Hfc. rewrite Hfc. unfold S, remaining. fold rd. rewrite Hbr. reflexivity. }
+  destruct Hb0 as [Hne HS]. clear Hf.
+  pose proof (Hfirst _ _ Hne HS) as Hav.
+  intros Hrun. right. right. exists (length b0).
+  set (need0 := match fhead F b0 with FhMore => true | _ => false end) in *.
+  exists (if l_dirty s && need0 then [Flush] else []).
+  assert (Hfl : (if l_dirty s && need0 then [Flush] else []) = [] \/
+                ((if l_dirty s && need0 then [Flush] else []) = [Flush] /\ l_dirty s = true)).
+  { destruct (l_dirty s), need0; cbn; auto. }
+  assert (Hd : unflushed_from (l_dirty s) (if l_dirty s && need0 then [Flush] else []) = l_dirty s && negb need0).
+  { destruct (l_dirty s), need0; reflexivity. }
+  (* phase 2: the head *)
+  destruct (read_head F b0 cs0) as [q hn b1 cs1|e|b'] eqn:Hrh.
+  3:{ exists [], (snd (A:=list event) (B:=iter_end) (match head_end F b' (tl rd) with None => silent_exit (l_dirty s && negb need0) | Some e => error_exit e end), Exit) .
+      exfalso. Abort.
+
 End Loop.
